@@ -401,12 +401,60 @@ pub open spec fn col_agg_ok(rows: Seq<Row>, c: usize, bm: Option<&[bool]>, op: A
     if op == AggregateOp::Count { v == SqlValue::Integer(n_sel(bm, rows.len() as int) as i64) }
     else { (v is Null) == (n_live(rows, c, bm, rows.len() as int) == 0) }
 }
-// compute_expression_aggregate (SUM(a*b), COUNT(col), ..): NOT under contract; an uninterpreted function of its arguments
-pub uninterp spec fn expr_agg(rows: Seq<Row>, e: Expression, op: AggregateOp, bm: Option<&[bool]>, s: &CombinedSchema) -> Result<SqlValue, ExecutorError>;
+// eval_simple_expr(expr, row, schema): the per-row value of an aggregate's argument expression - an uninterpreted deterministic function here
+// (its ColumnRef / Literal arms are under contract in unit A-plan)
+pub uninterp spec fn ev(e: Expression, row: Row, s: &CombinedSchema) -> Result<SqlValue, ExecutorError>;
 #[verifier::external_body]
-fn compute_expression_aggregate(rows: &[Row], expr: &Expression, op: AggregateOp, filter_bitmap: Option<&[bool]>, schema: &CombinedSchema) -> (r: Result<SqlValue, ExecutorError>)
-    ensures r == expr_agg(rows@, *expr, op, filter_bitmap, schema)
-{ unimplemented!() }
+fn eval_simple_expr(expr: &Expression, row: &Row, schema: &CombinedSchema) -> (r: Result<SqlValue, ExecutorError>) ensures r == ev(*expr, *row, schema) { unimplemented!() }
+/// row i takes part in an aggregate over expression e: selected, and e evaluates to a non-NULL value on it
+pub open spec fn elive(rows: Seq<Row>, e: Expression, bm: Option<&[bool]>, s: &CombinedSchema, i: int) -> bool {
+    sel(bm, i) && ev(e, rows[i], s) is Ok && !(ev(e, rows[i], s)->Ok_0 is Null)
+}
+pub open spec fn ev_all_ok(rows: Seq<Row>, e: Expression, bm: Option<&[bool]>, s: &CombinedSchema, n: int) -> bool {
+    forall|i: int| 0 <= i < n && sel(bm, i) ==> (#[trigger] ev(e, rows[i], s)) is Ok
+}
+pub open spec fn n_elive(rows: Seq<Row>, e: Expression, bm: Option<&[bool]>, s: &CombinedSchema, n: int) -> int decreases n {
+    if n <= 0 { 0 } else { n_elive(rows, e, bm, s, n - 1) + (if elive(rows, e, bm, s, n - 1) { 1int } else { 0int }) }
+}
+pub open spec fn e_all_numeric(rows: Seq<Row>, e: Expression, bm: Option<&[bool]>, s: &CombinedSchema, n: int) -> bool {
+    forall|i: int| 0 <= i < n && elive(rows, e, bm, s, i) ==> numeric(#[trigger] ev(e, rows[i], s)->Ok_0)
+}
+pub open spec fn e_sum(rows: Seq<Row>, e: Expression, bm: Option<&[bool]>, s: &CombinedSchema, n: int) -> f64 decreases n {
+    if n <= 0 { f_zero() } else if elive(rows, e, bm, s, n - 1) { f_add(e_sum(rows, e, bm, s, n - 1), to_f(ev(e, rows[n - 1], s)->Ok_0)) } else { e_sum(rows, e, bm, s, n - 1) }
+}
+pub open spec fn e_fold(rows: Seq<Row>, e: Expression, bm: Option<&[bool]>, s: &CombinedSchema, is_min: bool, n: int) -> Option<SqlValue> decreases n {
+    if n <= 0 { None } else if elive(rows, e, bm, s, n - 1) {
+        let v = ev(e, rows[n - 1], s)->Ok_0;
+        match e_fold(rows, e, bm, s, is_min, n - 1) { None => Some(v), Some(cur) => if (if is_min { lt_spec(v, cur) } else { lt_spec(cur, v) }) { Some(v) } else { Some(cur) } }
+    } else { e_fold(rows, e, bm, s, is_min, n - 1) }
+}
+proof fn lemma_e_counts(rows: Seq<Row>, e: Expression, bm: Option<&[bool]>, s: &CombinedSchema, n: int)
+    ensures 0 <= n_elive(rows, e, bm, s, n) <= (if n <= 0 { 0 } else { n }),
+            (e_fold(rows, e, bm, s, true, n) is None) == (n_elive(rows, e, bm, s, n) == 0), (e_fold(rows, e, bm, s, false, n) is None) == (n_elive(rows, e, bm, s, n) == 0),
+            e_fold(rows, e, bm, s, true, n) matches Some(v) ==> !(v is Null), e_fold(rows, e, bm, s, false, n) matches Some(v) ==> !(v is Null)
+    decreases n
+{
+    if n > 0 { lemma_e_counts(rows, e, bm, s, n - 1); }
+}
+/// the SQL value of <op>(e) over the selected rows (when every selected row evaluates)
+pub open spec fn expr_agg_value(rows: Seq<Row>, e: Expression, op: AggregateOp, bm: Option<&[bool]>, s: &CombinedSchema) -> SqlValue {
+    let n = rows.len() as int;
+    match op {
+        AggregateOp::Count => SqlValue::Integer(n_elive(rows, e, bm, s, n) as i64),           // COUNT(expr): the non-NULL values, never NULL
+        _ => if n_elive(rows, e, bm, s, n) == 0 { SqlValue::Null } else { match op {
+            AggregateOp::Sum => SqlValue::Double(e_sum(rows, e, bm, s, n)),
+            AggregateOp::Avg => SqlValue::Double(f_div(e_sum(rows, e, bm, s, n), f_of_i64(n_elive(rows, e, bm, s, n) as i64))),
+            AggregateOp::Min => e_fold(rows, e, bm, s, true, n).unwrap(),
+            _ => e_fold(rows, e, bm, s, false, n).unwrap(),
+        } },
+    }
+}
+pub open spec fn expr_agg(rows: Seq<Row>, e: Expression, op: AggregateOp, bm: Option<&[bool]>, s: &CombinedSchema) -> Result<SqlValue, ExecutorError> {
+    Ok(expr_agg_value(rows, e, op, bm, s))
+}
+
+//@@ compute_expression_aggregate
+
 // `schema.ok_or_else(|| ExecutorError::UnsupportedExpression(..))`
 #[verifier::external_body]
 fn schema_or_err<'a>(schema: Option<&'a CombinedSchema>) -> (r: Result<&'a CombinedSchema, ExecutorError>)
@@ -656,6 +704,23 @@ def _f64_arm(m):
     return 'SqlValue::%s(v) => %s,' % (m.group(1), {'Float': 'f64_of_f32(*v)', 'Integer': 'f64_of_i64(*v)', 'Bigint': 'f64_of_i64(*v)', 'Smallint': 'f64_of_i16(*v)'}[m.group(1)])
 
 
+_EX_INV = """
+            invariant
+                en__ <= rows@.len(), bm_ok(rows@, filter_bitmap), rows@.len() < i64::MAX,
+                ev_all_ok(rows@, *expr, filter_bitmap, schema, en__ as int),
+                0 <= n_elive(rows@, *expr, filter_bitmap, schema, en__ as int) <= en__,
+"""
+
+
+def _sum_arm_owned(m):
+    """`SqlValue::T(v) => sum += <v as f64 | v>,` with v bound BY VALUE -> stub conversion of the payload type"""
+    ty, expr = m.group(1), m.group(2).strip()
+    conv = {'v as f64': {'Integer': 'f64_of_i64(v)', 'Bigint': 'f64_of_i64(v)', 'Smallint': 'f64_of_i16(v)', 'Float': 'f64_of_f32(v)'}.get(ty), 'v': 'v'}.get(expr)
+    if conv is None:
+        return m.group(0)
+    return 'SqlValue::%s(v) => sum = fadd(sum, %s),' % (ty, conv)
+
+
 def _sum_arm(m):
     """`SqlValue::T(v) => sum += <v as f64>,` -> `SqlValue::T(v) => sum = fadd(sum, <conversion stub>),` (f64 `+=` and `as f64` are not interpreted)"""
     ty, expr = m.group(1), m.group(2).strip()
@@ -814,6 +879,39 @@ ITEMS = {
             }
         }),
 """),
+    'compute_expression_aggregate': dict(
+        file=_A, path='fn compute_expression_aggregate', ret='res',
+        rewrites=[_FMT,
+                  ('re', r'for \(row_idx, row\) in rows\.iter\(\)\.enumerate\(\) \{', 'let mut en__: usize = 0; while en__ < rows.len() { let row = &rows[en__]; let row_idx = en__; en__ = en__ + 1;', 3),
+                  ('re', r'bitmap\.get\(row_idx\)\.copied\(\)\.unwrap_or\(false\)', 'bm_get(bitmap, row_idx)', 3),
+                  ('re', r'let mut sum = 0\.0;', 'let mut sum = fzero();', 1),
+                  ('re', r'let mut count = 0;', 'let mut count = 0i64;', 2),
+                  ('refn', r'SqlValue::(\w+)\(v\) => sum \+= ([^,]+),', _sum_arm_owned, 6),
+                  ('re', r'sum / count as f64', 'fdiv(sum, f64_of_i64(count))', 1)],
+        loops={0: _EX_INV + """
+                op == AggregateOp::Sum,
+                count == n_elive(rows@, *expr, filter_bitmap, schema, en__ as int),
+                sum == e_sum(rows@, *expr, filter_bitmap, schema, en__ as int),
+                e_all_numeric(rows@, *expr, filter_bitmap, schema, en__ as int),
+            decreases rows@.len() - en__,
+""", 1: _EX_INV + """
+                count == n_elive(rows@, *expr, filter_bitmap, schema, en__ as int),
+            decreases rows@.len() - en__,
+""", 2: _EX_INV + """
+                result_value == e_fold(rows@, *expr, filter_bitmap, schema, op == AggregateOp::Min, en__ as int),
+            decreases rows@.len() - en__,
+"""},
+        proofs=[('@entry', 'proof { lemma_e_counts(rows@, *expr, filter_bitmap, schema, rows@.len() as int); }'),
+                ('@loop0', 'proof { let x = ev(*expr, rows@[en__ as int], schema)->Ok_0; assert(numeric(x) || !numeric(x)); }')],
+        contract="""
+    requires bm_ok(rows@, filter_bitmap), rows@.len() < i64::MAX
+    ensures
+        // when the expression evaluates on every selected row: the SQL aggregate over its non-NULL values (SUM / AVG: an error iff one of them is not numeric)
+        res matches Ok(v) ==> ev_all_ok(rows@, *expr, filter_bitmap, schema, rows@.len() as int) && v == expr_agg_value(rows@, *expr, op, filter_bitmap, schema),
+        (ev_all_ok(rows@, *expr, filter_bitmap, schema, rows@.len() as int)
+            && ((op == AggregateOp::Sum || op == AggregateOp::Avg) ==> e_all_numeric(rows@, *expr, filter_bitmap, schema, rows@.len() as int))) ==> res is Ok,
+    decreases (if op == AggregateOp::Avg { 1int } else { 0int }),
+"""),
     'AggregateSource': dict(file=_A, path='enum AggregateSource'),
     'AggregateSpec': dict(file=_A, path='struct AggregateSpec'),
     'scan_new': dict(file=_S, path="impl<'a> ColumnarScan<'a>::fn new", ret='r', contract="""
@@ -930,6 +1028,8 @@ OBLIGATIONS = {
     'lemma_fold_none_iff_no_live': ['post:fold_is_none_iff_no_live_value'],
     'can_use_simd_for_column': ['safety:no_panic_terminates'],
     'new': ['post:scan_over_the_rows'],
+    'compute_expression_aggregate': ['post:sql_aggregate_over_the_non_null_values_of_the_expression__count_never_null', 'safety:no_overflow', 'proof:loop_invariants_and_termination'],
+    'lemma_e_counts': ['post'],
     'compute_multiple_aggregates': ['post:one_value_per_spec_each_the_aggregate_of_its_source', 'proof:loop_invariant'],
     'execute_columnar_aggregate': ['post:exactly_one_row_also_for_empty_input__values_are_the_aggregates_over_the_filtered_rows'],
     'compute_columnar_aggregate': ['post:count_is_count_star__others_null_iff_no_non_null_value_on_every_path'],
@@ -953,7 +1053,7 @@ TRUSTED = [
     'SUM / AVG on the float driver: only "is a Double, NULL iff no value" is stated (batched float addition is not associative; no value-level spec)',
     'external_body i64_min / i64_max: std i64::min / i64::max; i64_cmp / i16_cmp: Ord::cmp on integers; f32_cmp / f64_cmp: partial_cmp(..).unwrap_or(Equal) on floats, only "is Less" is used (uninterpreted f32_lt / f64_lt)',
     'compare_for_min_max answers "not less" for every pair that is not two numerics of the same variant (strings, dates, mixed variants): MIN / MAX over such columns keep the FIRST value - stated as is (lt_spec), not judged',
-    'external_body compute_expression_aggregate (SUM(a*b), COUNT(col), AVG(expr), ..): NOT under contract, an uninterpreted function of its arguments; Expression / CombinedSchema / ColumnPredicate opaque; schema_or_err: Option::ok_or_else; opt_slice: Option<Vec<bool>>::as_deref; one_row: vec![row]; vec_repeat: vec![x; n]; Row::new',
+    'external_body eval_simple_expr: the per-row value of the argument expression of SUM(a*b) / COUNT(col) / .., an uninterpreted DETERMINISTIC function of (expression, row, schema) (its ColumnRef / Literal arms: unit A-plan; arithmetic: OperatorRegistry, unit E-ops); Expression / CombinedSchema / ColumnPredicate opaque; schema_or_err: Option::ok_or_else; opt_slice: Option<Vec<bool>>::as_deref; one_row: vec![row]; vec_repeat: vec![x; n]; Row::new',
     'external_body create_filter_bitmap_rows: create_filter_bitmap called with the closure |r, c| rows.get(r).and_then(|row| row.get(c)), by the length part of its contract (proved on the real function in unit A-filter) and an uninterpreted content',
     'R10 rewrite: for (i, x) in it.enumerate() desugared to its definition (loop / next / break with a usize counter)',
     'f64 `+=` / `as f64` / `/` rewritten to the fadd / f64_of_* / fdiv stubs (Verus does not interpret float arithmetic)',
